@@ -819,27 +819,43 @@ def run_token_action(c, rule, timeout, prop, extra_post=None):
 
 
 def run_error_hooks(c, timeout, prop):
-    facts, E, U = c["facts"], c["E"], c["U"]
+    """Lexer.error(token) and Parser.error(token | None): always raise the library's exception, for a token of
+    every type with a value satisfying that type's invariant (a node of the token's kind, or the matched text)."""
+    facts, E, U, PV = c["facts"], c["E"], c["U"], c["PV"]
     out = []
-    for cls, fact, want, args in (
-            (LEXER, facts.raw["lexer"]["error"], "TokenizingException", ["tok"]),
-            (PARSER, facts.raw["parser"]["error"], "ParsingException", ["tok"]),
-            (PARSER, facts.raw["parser"]["error"], "ParsingException", [None])):
-        def runner(path, cls=cls, fact=fact, args=args):
-            self_obj = Obj(cls)
-            a = [TokObj("X", "x") if x == "tok" else x for x in args]
-            return E.run_function(path, FuncRef(fact, defcls=cls), [self_obj] + a, self_val=self_obj)
-        res = explore(E, runner)
-        base = f"{prop}:{fact['qualname']}[token={'None' if args[0] is None else 'Token'}]"
+    P = facts.raw["parser"]
+    token_types = [t for t in P["terminals"] if t not in ("error", "$end")]
 
-        def raise_post(path, exc, want=want, args=args):
+    def make_token(path, ttype):
+        if ttype is None:
+            return None
+        if ttype in TOKEN_KIND:
+            v = z3.Const("tokval", PV)
+            path.assume(node_inv(c, v, [TOKEN_KIND[ttype]]))
+            return TokObj(ttype, Sym(v))
+        return TokObj(ttype, SStr([Atom(z3.Const("toktext", z3.StringSort()), ("term",))]))
+
+    cases = [(LEXER, facts.raw["lexer"]["error"], "TokenizingException", "<text>")]
+    cases += [(PARSER, facts.raw["parser"]["error"], "ParsingException", t) for t in token_types + [None]]
+    for cls, fact, want, ttype in cases:
+        def runner(path, cls=cls, fact=fact, ttype=ttype):
+            self_obj = Obj(cls)
+            tok = make_token(path, None if ttype is None else (ttype if ttype != "<text>" else "ERROR"))
+            return E.run_function(path, FuncRef(fact, defcls=cls), [self_obj, tok], self_val=self_obj)
+        res = explore(E, runner)
+        base = f"{prop}:{fact['qualname']}[token={ttype}]"
+
+        def raise_post(path, exc, want=want, ttype=ttype):
             ok = exc.name == want and is_lib_exc(exc)
             if want == "ParsingException":
-                ok = ok and exc.attrs.get("eof") is (args[0] is None)
+                ok = ok and exc.attrs.get("eof") is (ttype is None)
             return [("post.raise", z3.BoolVal(bool(ok)))]
-        out += outcomes_to_results(E, base, src_of(fact), res,
-                                   lambda path, v: [("post.raise", z3.BoolVal(False))],   # returning is a failure
-                                   lambda exc: False, {}, timeout, raise_post=raise_post)
+        rs = outcomes_to_results(E, base, src_of(fact), res,
+                                 lambda path, v: [("post.raise", z3.BoolVal(False))],   # returning is a failure
+                                 lambda exc: False, {}, timeout, raise_post=raise_post)
+        for r in rs:
+            r["token_type"] = ttype
+        out += rs
     return out
 
 
